@@ -1298,7 +1298,8 @@ func autoInvariants(li *LoopInfo) []*Clause {
 		}
 		switch {
 		case strings.HasPrefix(p.Comment, "rangeindex"):
-			cs = append(cs, &Clause{Text: "__iter >= -1 (auto)", Expr: &SBinary{">=", &SIdent{"__iter"}, &SUnary{"-", &SLit{big.NewInt(1)}}}})
+			cs = append(cs, &Clause{Text: "__iter >= -1 && __iter <= 1099511627776 (auto)",
+				Expr: &SBinary{"&&", &SBinary{">=", &SIdent{"__iter"}, &SUnary{"-", &SLit{big.NewInt(1)}}}, &SBinary{"<=", &SIdent{"__iter"}, &SLit{pow2(40)}}}})
 		case strings.HasPrefix(p.Comment, "rangeint"):
 			cs = append(cs, &Clause{Text: "__iter >= 0 (auto)", Expr: &SBinary{">=", &SIdent{"__iter"}, &SLit{big.NewInt(0)}}})
 		}
@@ -1313,6 +1314,9 @@ func (f *Frame) invariants(li *LoopInfo) []*Clause {
 	}
 	if f.houdini != nil {
 		cs = append(cs, f.houdini[li.Ordinal]...)
+	} else if !f.isTop {
+		// inlined bodies have no Houdini pass: the range-counter facts are stated (and checked) directly
+		cs = append(cs, autoInvariants(li)...)
 	}
 	return cs
 }
